@@ -20,7 +20,9 @@
 (*                                                                         *)
 (* Values are one-character strings so that a state has a short code the   *)
 (* conformance driver can decode ("-" = undefined):                        *)
-(*   variable v      "-" | "1" | "2"                                       *)
+(*   variable v      "-" | "1" | "2" (strings); a component variable may   *)
+(*                   also be "i" = 1, "b" = True, "f" = 1.0: equal under   *)
+(*                   ==, rendered "1" / "True" ("T") / "1.0" ("D")         *)
 (*   command.arguments  "L" literal | "R" = %(v)s | "P" = %(replica)s      *)
 (*   resourceRequest.numberProcesses  "-" absent | "1" | "2" | "R" = %(v)s *)
 (*                                    | "X" = a literal that is no integer *)
@@ -38,6 +40,11 @@
 (*                     also STORES a copy (srep) that is refreshed only     *)
 (*                     when a component is loaded / added                   *)
 (*   expandArguments = "none" when an interpreter is set                    *)
+(* Aliasing: update_component(c, d) and add_component(d, insert_copy=False) *)
+(* store a SHALLOW copy of d: the nested sections of the stored definition  *)
+(* are the caller's objects (`al`).  ReplaceSame = the caller edits a nested*)
+(* section of that dictionary in place and at once submits the same object  *)
+(* again with update_component.                                             *)
 (* Platforms: every platform of PlatSeq outside InitPlats does not exist    *)
 (* initially; set_platform_global_variable / set_platform_stage_variable    *)
 (* create its scope on demand ("#" = the stage dictionary does not exist).  *)
@@ -72,6 +79,8 @@ CONSTANTS CompSeq,         \* sequence of component labels, e.g. <<"c1", "c2">> 
           SetNpVals,       \* values numberProcesses can be set to (subset of {"1", "2", "R"})
           RiVals,          \* values repeatInterval can be set to (subset of {"0", "5"}); {} switches SetRi/DelRi off
           IpVals,          \* values command.interpreter can be set to (subset of {"B"}); {} switches SetIp/DelIp off
+          Edits,           \* in-place edits of ReplaceSame (subset of AllEdits); {} switches ReplaceSame and the tracking of `al` off
+          AddHows,         \* add_component: "api" = insert_copy=True, "ref" = insert_copy=False (subset of {"api", "ref"})
           Flavours,        \* query flavours explored (subset of AllFlavours)
           Templates,       \* component templates for add_component / update_component (subset of AllTemplates)
           BaseIds,         \* which initial descriptions are explored (subset of 0..2)
@@ -101,15 +110,22 @@ Lenient(f) == f = "lenient"                         \* ignore_convert_errors=Tru
 (* need_fully_resolved_flowir of the code: the only flavours that read / fill the cache *)
 UsesCache(f) == ~Raw(f) /\ Incl(f) /\ ~Prim(f) /\ Inj(f)
 
-AllTemplates == {"T1", "T2", "T3", "T4", "T5", "T6"}
-Tpl(cv, args, np, ri, ip) == [present |-> TRUE, cv |-> cv, args |-> args, np |-> np, ri |-> ri, srep |-> U, ip |-> ip]
+AllTemplates == {"T1", "T2", "T3", "T4", "T5", "T6", "T7", "T8", "T9"}
+Tpl(cv, args, np, ri, ip) == [present |-> TRUE, cv |-> cv, args |-> args, np |-> np, ri |-> ri, srep |-> U, ip |-> ip, al |-> FALSE]
 Template(t) == CASE t = "T1" -> Tpl(U,   "R", U,   U,   U)
                  [] t = "T2" -> Tpl("2", "L", "R", U,   U)
                  [] t = "T3" -> Tpl("1", "R", "2", U,   U)
                  [] t = "T4" -> Tpl(U,   "P", U,   U,   U)     \* needs %(replica)s
                  [] t = "T5" -> Tpl(U,   "L", "X", U,   U)     \* numberProcesses not an integer
                  [] t = "T6" -> Tpl(U,   "L", U,   "5", "B")   \* a repeating component run through an interpreter
-Absent == [present |-> FALSE, cv |-> U, args |-> "L", np |-> U, ri |-> U, srep |-> U, ip |-> U]
+                 [] t = "T7" -> Tpl("i", "R", U,   U,   U)     \* T7, T8, T9 are equal under == : v = 1, True, 1.0
+                 [] t = "T8" -> Tpl("b", "R", U,   U,   U)
+                 [] t = "T9" -> Tpl("f", "R", U,   U,   U)
+Absent == [present |-> FALSE, cv |-> U, args |-> "L", np |-> U, ri |-> U, srep |-> U, ip |-> U, al |-> FALSE]
+TrackAlias == Edits # {}
+AllEdits == {"aL", "aR", "v1", "v2", "v-"}      \* command.arguments := literal / %(v)s ; variables.v := "1" / "2" / deleted
+(* how string interpolation renders a value *)
+Str(x) == CASE x = "i" -> "1" [] x = "b" -> "T" [] x = "f" -> "D" [] OTHER -> x
 
 (* isRepeat as inject_default_values_to_component derives it; Norm = what loading / add_component do to a definition *)
 Derive(ri) == IF ri = "5" THEN "T" ELSE "F"
@@ -159,8 +175,8 @@ ResolveWith(DD, c, p, f, frozen) ==
      ELSE IF Raw(f) THEN Ok(vv, cc.args, npI, cc.ri, rep, xa)
      ELSE IF (cc.args = "R" \/ cc.np = "R") /\ vv = U THEN Err("VariableUnknown")
      ELSE IF cc.args = "P" /\ ~Prim(f) THEN Err("VariableUnknown")           \* replica is only tolerated for primitive graphs
-     ELSE IF cc.np = "X" /\ ~Lenient(f) THEN Err("ConvertError")
-     ELSE Ok(vv, IF cc.args = "R" THEN vv ELSE cc.args, IF cc.np = "R" THEN vv ELSE npI, cc.ri, rep, xa)
+     ELSE IF (cc.np = "X" \/ (cc.np = "R" /\ Str(vv) \in {"T", "D"})) /\ ~Lenient(f) THEN Err("ConvertError")   \* int("True"), int("1.0")
+     ELSE Ok(vv, IF cc.args = "R" THEN Str(vv) ELSE cc.args, IF cc.np = "R" THEN Str(vv) ELSE npI, cc.ri, rep, xa)
 
 Resolve(DD, c, p, f) == ResolveWith(DD, c, p, f, FALSE)          \* the oracle
 Answer(DD, c, p, f)  == ResolveWith(DD, c, p, f, DerivedFrozen)  \* what the implementation computes on a cache miss
@@ -234,7 +250,17 @@ DelRi(c, how)         == CompMutator("DelRi", c, U, how, D.comp[c].ri # U, [D.co
 SetIp(c, x, how)      == CompMutator("SetIp", c, x, how, TRUE, [D.comp[c] EXCEPT !.ip = x], U)
 DelIp(c, how)         == CompMutator("DelIp", c, U, how, D.comp[c].ip # U, [D.comp[c] EXCEPT !.ip = U], "KeyError")
 (* update_component(c, new definition): the definition is stored as given (no derived fields are added) *)
-ReplaceComp(c, t)     == CompMutator("ReplaceComp", c, t, "api", TRUE, Template(t), U)
+ReplaceComp(c, t)     == CompMutator("ReplaceComp", c, t, "api", TRUE, [Template(t) EXCEPT !.al = TrackAlias], U)
+
+(* the caller edits a nested section of the dictionary the stored definition shares with it, then update_component(c, same object) *)
+Edited(cc, e) == CASE e = "aL" -> [cc EXCEPT !.args = "L"] [] e = "aR" -> [cc EXCEPT !.args = "R"]
+                   [] e = "v1" -> [cc EXCEPT !.cv = "1"] [] e = "v2" -> [cc EXCEPT !.cv = "2"] [] e = "v-" -> [cc EXCEPT !.cv = U]
+ReplaceSame(c, e) ==
+  /\ D.comp[c].present /\ D.comp[c].al
+  /\ cache' = InvalidateComp(c)
+  /\ D' = [D EXCEPT !.comp[c] = Edited(D.comp[c], e)]
+  /\ last' = Call("ReplaceSame", c, U, -1, e, "api", FALSE, Done)
+  /\ UNCHANGED handed
 
 (* delete_component(c): the component's entries are invalidated *)
 DeleteComp(c) ==
@@ -248,12 +274,12 @@ DeleteComp(c) ==
 
 (* add_component(definition): no invalidation in the code -- correct only because no entry of an absent component   *)
 (* can exist (DeleteComp removed it, a failed query is never stored): TLC checks exactly this.                       *)
-AddComp(c, t) ==
+AddComp(c, t, how) ==
   IF D.comp[c].present
   THEN /\ UNCHANGED <<D, cache, handed>>
-       /\ last' = Call("AddComp", c, U, -1, t, "api", FALSE, Err("ComponentExists"))
-  ELSE /\ D' = [D EXCEPT !.comp[c] = Norm(Template(t))]       \* add_component derives isRepeat for the stored definition
-       /\ last' = Call("AddComp", c, U, -1, t, "api", FALSE, Done)
+       /\ last' = Call("AddComp", c, U, -1, t, how, FALSE, Err("ComponentExists"))
+  ELSE /\ D' = [D EXCEPT !.comp[c] = [Norm(Template(t)) EXCEPT !.al = (how = "ref" /\ TrackAlias)]]   \* isRepeat is derived for the stored definition
+       /\ last' = Call("AddComp", c, U, -1, t, how, FALSE, Done)
        /\ UNCHANGED <<cache, handed>>
 
 (* Workflow-scoped mutators clear the whole cache.                                                                   *)
@@ -314,8 +340,9 @@ Next ==
   \/ \E p \in MutPlats, s \in Stages, x \in Vals : SetPlatformStage(p, s, x)
   \/ \E p \in MutPlats, x \in ValsU : InPlaceGlobal(p, x)
   \/ \E p \in MutPlats, s \in Stages, x \in ValsU : InPlaceStage(p, s, x)
-  \/ \E c \in Comps, t \in Templates : AddComp(c, t)
+  \/ \E c \in Comps, t \in Templates, h \in AddHows : AddComp(c, t, h)
   \/ \E c \in Comps, t \in Templates : ReplaceComp(c, t)
+  \/ \E c \in Comps, e \in Edits : ReplaceSame(c, e)
   \/ \E c \in Comps : DeleteComp(c)
   \/ MutateReturned
 
@@ -328,7 +355,7 @@ TypeOK == /\ D.kn \in [Plats -> BOOLEAN] /\ \A p \in InitPlats : D.kn[p]
           /\ D.gv \in [Plats -> AllValsU]
           /\ D.sv \in [Plats -> [Stages -> AllValsU \cup {NoDict}]]
           /\ \A p \in Plats : ~D.kn[p] => (D.gv[p] = U /\ \A s \in Stages : D.sv[p][s] = NoDict)
-          /\ \A c \in Comps : /\ D.comp[c].cv \in AllValsU /\ D.comp[c].args \in {"L", "R", "P"}
+          /\ \A c \in Comps : /\ D.comp[c].cv \in AllValsU \cup {"i", "b", "f"} /\ D.comp[c].args \in {"L", "R", "P"}
                               /\ D.comp[c].np \in AllValsU \cup {"R", "X"}
                               /\ D.comp[c].ri \in {U, "0", "5"} /\ D.comp[c].srep \in {U, "T", "F"} /\ D.comp[c].ip \in {U, "B"}
                               /\ (~D.comp[c].present => D.comp[c] = Absent)
@@ -369,7 +396,7 @@ CodeOf(DD, ca, ha) ==
                                   \o Cat([j \in 1..Len(StageSeq) |-> DD.sv[PlatSeq[i]][StageSeq[j]]])])
   \o "|" \o
   Cat([i \in 1..Len(CompSeq) |-> LET cc == DD.comp[CompSeq[i]] IN (IF cc.present THEN "P" ELSE "A") \o cc.cv \o cc.args \o cc.np
-                                                                             \o cc.ri \o cc.srep \o cc.ip])
+                                                                             \o cc.ri \o cc.srep \o cc.ip \o (IF cc.al THEN "a" ELSE U)])
   \o "|" \o
   Cat([i \in 1..Len(CompSeq) |-> Cat([j \in 1..Len(PlatSeq) |-> IF <<CompSeq[i], PlatSeq[j]>> \in DOMAIN ca THEN "1" ELSE "0"])])
   \o "|" \o (CASE ha = "none" -> "N" [] ha = "hit" -> "H" [] ha = "miss" -> "M" [] ha = "other" -> "O")
